@@ -2,8 +2,9 @@ package scen
 
 import (
 	"bytes"
-	"errors"
+	"encoding/binary"
 	"encoding/hex"
+	"errors"
 	"fmt"
 	"io"
 	"reflect"
@@ -11,7 +12,10 @@ import (
 
 	protocol "github.com/hujm2023/go-sms-protocol"
 	"github.com/hujm2023/go-sms-protocol/cmpp"
+	"github.com/hujm2023/go-sms-protocol/packet"
+	"github.com/hujm2023/go-sms-protocol/sgip"
 	"github.com/hujm2023/go-sms-protocol/smgp"
+	"github.com/hujm2023/go-sms-protocol/smpp"
 
 	"verif/sim/core"
 	"verif/sim/simnet"
@@ -482,10 +486,121 @@ func interopLegB(r *core.Run, proto *spec.Proto, n int, opt spec.GenOpt) {
 		if c.Prob(1, 3) {
 			headerViaReader(r, proto, s.b)
 		}
+		if c.Prob(1, 3) {
+			headerHelpers(r, proto, s.b)
+		}
 		if c.Bool() {
 			ownerAdds(fresh)
 			fillSpare(fresh)
 			scribbleBytes(fresh)
+		}
+	}
+}
+
+// headerHelpers: the exported header constructors, writers and readers of the protocol packages (a caller that frames
+// by hand uses them) must produce and read the very header octets the specification lays out: the image's own.
+func headerHelpers(r *core.Run, proto *spec.Proto, img []byte) {
+	hl := proto.HeaderLen()
+	if len(img) < hl {
+		return
+	}
+	w := func(i int) uint32 { return binary.BigEndian.Uint32(img[4*i:]) }
+	var viaWriter, viaBytes []byte
+	var back [5]uint32
+	var nback int
+	var err error
+	name := proto.Name
+	p := r.Call(name+".header-helpers", func() {
+		pw := packet.NewPacketWriter()
+		defer pw.Release()
+		switch proto.Name {
+		case "smpp34":
+			h := smpp.NewPduHeader(w(0), smpp.CMDId(w(1)), smpp.CMDStatus(w(2)), w(3))
+			smpp.WriteHeader(*h, pw)
+			viaWriter, err = pw.Bytes()
+			viaWriter = append([]byte(nil), viaWriter...)
+			rd := packet.NewPacketReader(img)
+			defer rd.Release()
+			h2 := smpp.ReadHeader(rd)
+			h3, _ := smpp.PeekHeader(img)
+			if h2 != h3 {
+				h2.Length ^= 1 // reported below as a read-back mismatch
+			}
+			back, nback = [5]uint32{h2.Length, uint32(h2.ID), uint32(h2.Status), h2.Sequence}, 4
+		case "cmpp20", "cmpp30":
+			h := cmpp.NewHeader(w(0), cmpp.CommandID(w(1)), w(2))
+			cmpp.WriteHeader(h, pw)
+			viaWriter, err = pw.Bytes()
+			viaWriter = append([]byte(nil), viaWriter...)
+			viaBytes = h.Bytes()
+			rd := packet.NewPacketReader(img)
+			defer rd.Release()
+			h2 := cmpp.ReadHeader(rd)
+			h3, _ := cmpp.PeekHeader(img)
+			h4, _ := cmpp.NewHeaderFromBytes(img)
+			if h2 != h3 || h2 != h4 {
+				h2.TotalLength ^= 1
+			}
+			back, nback = [5]uint32{h2.TotalLength, uint32(h2.CommandID), h2.SequenceID}, 3
+		case "smgp30":
+			h := smgp.NewHeader(w(0), smgp.CommandID(w(1)), w(2))
+			smgp.WriteHeader(h, pw)
+			viaWriter, err = pw.Bytes()
+			viaWriter = append([]byte(nil), viaWriter...)
+			viaBytes = h.Bytes()
+			rd := packet.NewPacketReader(img)
+			defer rd.Release()
+			h2 := smgp.ReadHeader(rd)
+			h3, _ := smgp.PeekHeader(img)
+			h4, _ := smgp.NewHeaderFromBytes(img)
+			if h2 != h3 || h2 != h4 {
+				h2.TotalLength ^= 1
+			}
+			back, nback = [5]uint32{h2.TotalLength, uint32(h2.CommandID), h2.SequenceID}, 3
+		case "sgip12":
+			h := sgip.NewHeader(w(0), sgip.CommandID(w(1)), w(2), w(4))
+			// the constructor stamps the second word from the clock: mmddhhmmss as a decimal number
+			if ts := h.Sequence[1]; ts/100000000 < 1 || ts/100000000 > 12 || ts/1000000%100 < 1 || ts/1000000%100 > 31 || ts/10000%100 > 23 || ts/100%100 > 59 || ts%100 > 59 {
+				err = fmt.Errorf("sgip.NewHeader stamped %d, which is no mmddhhmmss", ts)
+			}
+			h.Sequence[1] = w(3)
+			pw.WriteUint32(h.TotalLength)
+			sgip.WriteHeaderNoLength(h, pw)
+			var e2 error
+			viaWriter, e2 = pw.Bytes()
+			if err == nil {
+				err = e2
+			}
+			viaWriter = append([]byte(nil), viaWriter...)
+			rd := packet.NewPacketReader(img)
+			defer rd.Release()
+			h2 := sgip.ReadHeader(rd)
+			h3, _ := sgip.PeekHeader(img)
+			if h2 != h3 {
+				h2.TotalLength ^= 1
+			}
+			back, nback = [5]uint32{h2.TotalLength, uint32(h2.CommandID), h2.Sequence[0], h2.Sequence[1], h2.Sequence[2]}, 5
+		}
+	})
+	if p != nil {
+		r.Fail("C02", "panic", p.Frame, p.Kind, "header helpers of %s: %s", name, p.Value)
+		return
+	}
+	r.Probe("header_helpers")
+	if err != nil {
+		r.Fail("C02", "layout", name+".header-helpers", "error", "writing a header with the package's helpers: %v", err)
+		return
+	}
+	if !bytes.Equal(viaWriter, img[:hl]) {
+		r.Fail("C02", "layout", name+".WriteHeader", "octets", "header written by the helpers % x, the image carries % x", viaWriter, img[:hl])
+	}
+	if viaBytes != nil && !bytes.Equal(viaBytes, img[:hl]) {
+		r.Fail("C02", "layout", name+".Header.Bytes", "octets", "Header.Bytes() % x, the image carries % x", viaBytes, img[:hl])
+	}
+	for i := 0; i < nback; i++ {
+		if back[i] != w(i) {
+			r.Fail("C02", "decode", name+".ReadHeader", "header-words", "header word %d read back as %#x (or the readers disagree among themselves), the image carries %#x", i, back[i], w(i))
+			break
 		}
 	}
 }
